@@ -29,9 +29,12 @@ def run(tier, runner):
     r_tt.require(2, 'throw expressions reachable from swap2 (swap_sizetype, the fixed-capacity check)')
     r_sw = round5.swap_who(progs)
     r_sw.require(1, 'callers of swap_impl')
+    from ..rules import seglayout
+    r_seg = seglayout.seg_layout(sw)
+    r_seg.require(2, 'swap_deep instantiations (size type pairs)')
     return {
-        'results': [r_w, r_tf, r_tr, r_cd, r_st, r_sr, r_eo, r_es, r_xa, r_tt, r_sw],
-        'explanation': 'SWAP-WHO: the same-N exchange swap_impl is only reachable with operands whose static type carries N.  THROW-TYPE: swap_sizetype throws overflow_error exactly when a size exceeds the maximum of the other size type (strict comparison with the folded maximum), the fixed-capacity check out_of_range exactly when the request exceeds N.  XALLOC: the buffer-exchange branch is only live for operands of the same allocator type and size_type - for every other instantiated (receiver, operand) pair canSwapDynStorage folds to the constant false.  For every ordered pair of flavours / inline capacities / size types / allocators of the matrix (swap2_impl instantiations): '
+        'results': [r_w, r_tf, r_tr, r_cd, r_st, r_sr, r_eo, r_es, r_xa, r_tt, r_sw, r_seg],
+        'explanation': 'SEG-LAYOUT (helper contract): swap_deep, the element exchange every non-buffer swap goes through, leaves - for every pair of counts and every pair of size types instantiated - exactly the count2 elements of the second range in the first and the count1 elements of the first in the second, in order, nothing else alive (two storages in one index space, array-segmentation interpretation).  SWAP-WHO: the same-N exchange swap_impl is only reachable with operands whose static type carries N.  THROW-TYPE: swap_sizetype throws overflow_error exactly when a size exceeds the maximum of the other size type (strict comparison with the folded maximum), the fixed-capacity check out_of_range exactly when the request exceeds N.  XALLOC: the buffer-exchange branch is only live for operands of the same allocator type and size_type - for every other instantiated (receiver, operand) pair canSwapDynStorage folds to the constant false.  For every ordered pair of flavours / inline capacities / size types / allocators of the matrix (swap2_impl instantiations): '
                        'ENC-W - sizes are exchanged only through the encoders or jointly with the capacity; THROW-FIRST - every call that may throw '
                        '(size_type overflow test, capacity adjustment) is sequenced before the first modification of either operand, so an impossible '
                        'exchange throws with both contents intact; THROW-REACH - no noexcept function on the swap2 path can reach a throw (it throws '
